@@ -788,7 +788,10 @@ def compare(case: dict, obs: dict, pred: dict, rng: random.Random, n_numeric: in
         stats["chain_ratios"] += 1
         same = e1 == expected
         stats["structural"] += bool(same)
-        if not same or ci in numeric_pick:
+        if not same:
+            stats["mismatch"] = stats.get("mismatch", 0) + 1
+        # numeric evaluation: the sampled chains, and the first structural mismatches of a case
+        if (not same and bad == 0 and stats.get("mismatch", 0) <= 3) or ci in numeric_pick:
             ok, msg = numeric_equal(e1, expected, rng)
             stats["numeric"] += 1
             if not ok or not same:
